@@ -54,7 +54,8 @@ fn observe(rt: &dyn Runtime, base: &dyn Runtime, sc: &J) -> J {
                 .unwrap_or_default();
             let t = rt.try_get(&path).map(|v| val_json(v.as_view()));
             let g = rt.get(&path).ok().map(|v| val_json(v.as_view()));
-            qs.push(json!({"path": q, "try_get": t, "get": g}));
+            // a binding to nil is present: report presence separately from the (null) value
+            qs.push(json!({"path": q, "try_get_present": t.is_some(), "get_present": g.is_some(), "try_get": t, "get": g}));
         }
     }
     let roots: Vec<String> = rt.roots().into_iter().map(|k| k.as_str().to_owned()).collect();
